@@ -36,10 +36,20 @@ structure Cfg where
   eqEmpty : Bool          -- operator== on two empty tables returns true (C20-7)
   permuteEmpty : Bool     -- permuteDimensions on an empty table returns (C20-8)
   moveAssignRelease : Bool -- move assignment leaves the source empty (C20-10)
+  stackDelete : Bool      -- the stacking constructor deletes its two padding tables (C20-12)
+  stackExtents : Bool     -- the stacking constructor gives the new table its `extents` arrays (proposed C20-13)
+  stackGuard : Bool       -- an allocation failure inside the stacking constructor releases everything (proposed C20-14)
+  stackCheck : Bool       -- the stacking constructor throws on unusable arguments instead of UB (proposed C20-15)
 deriving Repr, DecidableEq
 
-def Cfg.repaired : Cfg := ⟨true, true, true, true, true, true, true, true, true, true, true⟩
-def Cfg.asIs : Cfg := ⟨false, false, false, false, false, false, false, false, false, false, false⟩
+/-- every repair in force -/
+def Cfg.repaired : Cfg := ⟨true, true, true, true, true, true, true, true, true, true, true, true, true, true, true⟩
+/-- the snapshot the project started from -/
+def Cfg.asIs : Cfg := ⟨false, false, false, false, false, false, false, false, false, false, false, false, false, false, false⟩
+/-- the library as it is today (/repo HEAD): fixes C20-1 … C20-12 and C16-4 are in, the three
+    repairs of the stacking constructor found while modelling it (C20-13 … C20-15) are only proposed.
+    This is the configuration the driver runs by default. -/
+def Cfg.head : Cfg := ⟨true, true, true, true, true, true, true, true, true, true, true, true, false, false, false⟩
 
 /-- Allocator events. -/
 inductive Ev where
@@ -80,6 +90,7 @@ structure Tab where
   ledger : List Nat := []
   bad : Nat := 0
   broken : Bool := false    -- only reachable with unrepaired code: half-built or dangling pointers
+  noExtents : Bool := false -- `extents == NULL` although `ndim != 0`: what the stacking constructor leaves (before C20-13)
 deriving Repr, DecidableEq
 
 def Tab.empty : Tab := {}
@@ -89,29 +100,41 @@ def knotBlocks (dims : List Dim) : List Nat := dims.map fun d => 8 * (d.nknots +
 /-- the fixed-size arrays, in the order `fit` obtains them -/
 def fixedBlocks (n : Nat) (dims : List Dim) : List Nat :=
   [4 * n, 8 * n, 8 * n, 8 * n, 16 * n, 8 * n, 8 * n, 4 * ncoef dims]
+/-- the same without the two `extents` blocks (a table made by the unrepaired stacking constructor) -/
+def fixedBlocksNoExt (n : Nat) (dims : List Dim) : List Nat :=
+  [4 * n, 8 * n, 8 * n, 8 * n, 8 * n, 4 * ncoef dims]
+/-- the two `extents` blocks in the order the destructor / `release_storage` return them -/
+def extBlocks (noExt : Bool) (n : Nat) : List Nat := if noExt then [] else [16 * n, 8 * n]
 def auxEntryBlocks (aux : List Aux) : List Nat := aux.flatMap fun e => [16, e.k, e.v]
 def auxBlocks (arr : Bool) (aux : List Aux) : List Nat :=
   (if arr then [8 * aux.length] else []) ++ auxEntryBlocks aux
 
 /-- Everything the object owns, as block sizes. -/
 def Tab.blocks (t : Tab) : List Nat :=
-  (if t.core then fixedBlocks t.ndim t.dims ++ knotBlocks t.dims else []) ++
+  (if t.core then (if t.noExtents then fixedBlocksNoExt t.ndim t.dims else fixedBlocks t.ndim t.dims) ++ knotBlocks t.dims else []) ++
   (if t.periods then [8 * t.ndim] else []) ++ auxBlocks t.auxArr t.aux
 
 /-- the abstract state compared with the real object after every call -/
-def Tab.shape (t : Tab) : Nat × List Dim × Bool × Bool × Bool × List Aux × Bool :=
-  (t.ndim, t.dims, t.core, t.periods, t.auxArr, t.aux, t.broken)
+def Tab.shape (t : Tab) : Nat × List Dim × Bool × Bool × Bool × List Aux × Bool × Bool :=
+  (t.ndim, t.dims, t.core, t.periods, t.auxArr, t.aux, t.broken, t.noExtents)
 
 def Tab.isEmpty (t : Tab) : Bool :=
-  t.ndim == 0 && !t.core && !t.periods && !t.auxArr && t.aux.isEmpty && t.dims.isEmpty && !t.broken
+  t.ndim == 0 && !t.core && !t.periods && !t.auxArr && t.aux.isEmpty && t.dims.isEmpty && !t.broken && !t.noExtents
 
-/-- The ownership invariant: `ndim = 0` ⇒ nothing is owned; `ndim ≠ 0` ⇒ all arrays are owned
-    (periods are optional: `fit` never allocates them and the destructor tests the pointer). -/
-structure Tab.Own (t : Tab) : Prop where
-  empty : t.ndim = 0 → t.core = false ∧ t.periods = false ∧ t.auxArr = false ∧ t.aux = [] ∧ t.dims = []
+/-- The ownership invariant without the clause about `extents`: `ndim = 0` ⇒ nothing is owned;
+    `ndim ≠ 0` ⇒ the arrays every member relies on are owned (periods are optional: `fit` never
+    allocates them and the destructor tests the pointer; so does it for `extents`, which only the
+    unrepaired stacking constructor leaves out). -/
+structure Tab.OwnX (t : Tab) : Prop where
+  empty : t.ndim = 0 → t.core = false ∧ t.periods = false ∧ t.auxArr = false ∧ t.aux = [] ∧ t.dims = [] ∧ t.noExtents = false
   full : t.ndim ≠ 0 → t.core = true ∧ t.dims.length = t.ndim
   auxArr : t.aux ≠ [] → t.auxArr = true
   sound : t.broken = false
+
+/-- The ownership invariant: `OwnX` and the `extents` arrays are there whenever `ndim ≠ 0`
+    (`convolve`, `permuteDimensions`, `lower_extent`/`upper_extent` read through them unconditionally). -/
+structure Tab.Own (t : Tab) : Prop extends t.OwnX where
+  extents : t.noExtents = false
 
 /-- The ledger invariant: what the allocator has handed out and not got back is exactly what the
     object owns, and nothing was ever released that was not live. -/
@@ -120,10 +143,13 @@ structure Tab.Balanced (t : Tab) : Prop where
   bad : t.bad = 0
 
 structure Tab.Inv (t : Tab) : Prop extends t.Own, t.Balanced
+/-- what every table satisfies even after the unrepaired stacking constructor: destructible, leak-free -/
+structure Tab.InvX (t : Tab) : Prop extends t.OwnX, t.Balanced
 
 /-- executable versions (used for the decided witnesses and by the driver) -/
-def Tab.ownB (t : Tab) : Bool :=
+def Tab.ownXB (t : Tab) : Bool :=
   (if t.ndim = 0 then t.isEmpty else t.core && t.dims.length == t.ndim) && (t.aux.isEmpty || t.auxArr) && !t.broken
+def Tab.ownB (t : Tab) : Bool := t.ownXB && !t.noExtents
 def Tab.balancedB (t : Tab) : Bool := t.ledger.isPerm t.blocks && t.bad == 0
 
 /-! ## Programs of allocation steps under the failure environment -/
@@ -324,13 +350,18 @@ def convDims (dims : List Dim) (dim nk : Nat) : List Dim :=
       ⟨o, k, k - o - 1⟩
     else d
 
+/-- what `convolve` re-obtains after releasing the coefficients and all knot vectors, in source order -/
+def convSteps (t : Tab) (dim nk : Nat) : List Step :=
+  (4 * ncoef (convDims t.dims dim nk) :: knotBlocks (convDims t.dims dim nk)).map .a
+
 def convolve (c : Cfg) (t : Tab) (cd : Option Nat) (dim nk : Nat) : Out :=
   if t.ndim ≤ dim ∨ nk = 0 then
     if c.convCheck then ⟨t, cd, .threw, []⟩ else ⟨t, cd, .crash, []⟩
+  else if t.noExtents then ⟨t, cd, .crash, []⟩      -- `extents[dim][0]` is read before anything is released
   else
     let dims' := convDims t.dims dim nk
     let frees := (4 * ncoef t.dims :: knotBlocks t.dims).map Ev.d
-    let r := runSteps cd ((4 * ncoef dims' :: knotBlocks dims').map .a) []
+    let r := runSteps cd (convSteps t dim nk) []
     let t1 : Tab := { t with dims := dims' }
     if r.2.2.2 then ⟨t1.apply (frees ++ r.1), r.2.2.1, .ok, frees ++ r.1⟩
     else if c.convGuard then
@@ -346,20 +377,66 @@ def convolve (c : Cfg) (t : Tab) (cd : Option Nat) (dim nk : Nat) : Out :=
 def permute (c : Cfg) (t : Tab) (cd : Option Nat) (p : List Nat) : Out :=
   if !(p.isPerm (List.range t.ndim)) then ⟨t, cd, .threw, []⟩
   else if t.ndim = 0 then ⟨t, cd, if c.permuteEmpty then .ok else .crash, []⟩
+  else if t.noExtents then ⟨t, cd, .crash, []⟩      -- `extents[j][0]` is read for every dimension
   else ⟨{ t with dims := p.map fun j => t.dims.getD j ⟨0, 0, 0⟩ }, cd, .ok, []⟩
 
-def writeFits (t : Tab) (cd : Option Nat) : Out :=
-  ⟨t, cd, if t.ndim = 0 then .threw else .ok, []⟩
+/-- `write_fits` / `write_fits_mem`: no allocator traffic, the table is `const`; `ioOk = false`: cfitsio
+    or the file system reports an error at some point of the write (C08 is about what is left on disk). -/
+def writeFits (t : Tab) (cd : Option Nat) (ioOk : Bool) : Out :=
+  ⟨t, cd, if t.ndim = 0 ∨ ioOk = false then .threw else .ok, []⟩
 
 /-- `~splinetable`: returns the ledger the dead object leaves behind. -/
 def destroy (t : Tab) : Tab × List Ev :=
   if t.broken then ({ t with bad := t.bad + 1 }, [])     -- null dereference / double free in the destructor
   else if t.ndim = 0 then (t, [])
   else
-    let evs := (knotBlocks t.dims ++ [8 * t.ndim, 8 * t.ndim, 4 * t.ndim, 16 * t.ndim, 8 * t.ndim] ++
+    let evs := (knotBlocks t.dims ++ [8 * t.ndim, 8 * t.ndim, 4 * t.ndim] ++ extBlocks t.noExtents t.ndim ++
       (if t.periods then [8 * t.ndim] else []) ++ [4 * ncoef t.dims, 8 * t.ndim, 8 * t.ndim] ++
       auxEntryBlocks t.aux ++ (if t.auxArr then [8 * t.aux.length] else [])).map Ev.d
     (t.apply evs, evs)
+
+/-! ## The stacking constructor
+
+`splinetable(std::vector<splinetable*> tables, std::vector<double> coordinates, int stackOrder, alloc)`
+(splinetable.h).  Three objects obtain memory, each from its own allocator: two padding tables made by
+`extrapolateSpline` (`new splinetable<Alloc>()`, default allocator) from the first and the last input,
+then the new table itself.  The arguments are examined by `assert` only. -/
+
+/-- what one padding table obtains (`extrapolateSpline`), in source order -/
+def padBlocks (dims : List Dim) : List Nat :=
+  [4 * dims.length, 8 * dims.length, 8 * dims.length] ++ knotBlocks dims ++
+  [8 * dims.length, 8 * dims.length, 8 * dims.length, 16 * dims.length, 4 * ncoef dims]
+
+/-- a padding table once built: no periods, no aux store; `led` is the state of its allocator -/
+def padTab (dims : List Dim) (led : Led) : Tab :=
+  { ndim := dims.length, dims := dims, core := true, ledger := led.1, bad := led.2 }
+
+/-- dimensions of the result over `k` inputs: those of the inputs, then the stacking dimension with
+    `k + 2` coefficients (the inputs and the two paddings) and `k + 2 + order + 1` knots -/
+def stackDims (dims : List Dim) (k order : Nat) : List Dim := dims ++ [⟨order, k + 2 + order + 1, k + 2⟩]
+
+/-- what the new table obtains, in source order; `extents` only with C20-13; C20-14 obtains `strides`
+    before the coefficients (`release_storage` sizes the coefficient array by `strides[0]*naxes[0]`) -/
+def stackMainBlocks (c : Cfg) (dims : List Dim) (k order : Nat) : List Nat :=
+  [4 * (dims.length + 1), 8 * (dims.length + 1), 8 * (dims.length + 1)] ++ knotBlocks (stackDims dims k order) ++
+  (if c.stackGuard then [8 * (dims.length + 1), 8 * (dims.length + 1), 4 * ncoef (stackDims dims k order)]
+   else [8 * (dims.length + 1), 4 * ncoef (stackDims dims k order), 8 * (dims.length + 1)]) ++
+  (if c.stackExtents then [8 * (dims.length + 1), 16 * (dims.length + 1)] else [])
+
+def stackTarget (c : Cfg) (dims : List Dim) (k order : Nat) : Tab :=
+  { ndim := dims.length + 1, dims := stackDims dims k order, core := true, noExtents := !c.stackExtents }
+
+/-- The arguments the constructor can digest: at least two tables, none of them empty, all of the same
+    shape (it copies `ncoeffs(first)` coefficients out of every one of them), and `extents` present in
+    the first and the last (`extrapolateSpline` copies them). -/
+def stackValid (ts : List Tab) : Bool :=
+  match ts, ts.getLast? with
+  | t0 :: _ :: _, some tl =>
+    t0.ndim != 0 && !t0.noExtents && !tl.noExtents && ts.all (fun t => t.ndim == t0.ndim && t.dims == t0.dims)
+  | _, _ => false
+
+/-- ledger × bad of a fresh allocator after `evs` -/
+def ledgerOf (evs : List Ev) : Led := applyEvs ([], 0) evs
 
 /-! ## Histories over several objects -/
 
@@ -376,8 +453,9 @@ inductive Op where
   | moveConstruct (i j : Nat)
   | moveAssign (i j : Nat)
   | compare (i j : Nat)
-  | writeFits (i : Nat)                    -- write_fits and write_fits_mem: no allocator traffic
+  | writeFits (i : Nat) (ioOk : Bool)      -- write_fits and write_fits_mem: no allocator traffic
   | destroy (i : Nat)
+  | stack (i : Nat) (srcs : List Nat) (order : Nat)   -- splinetable(vector<splinetable*>, coordinates, stackOrder, alloc)
 deriving Repr
 
 /-- `retired`: (ledger, bad) left behind by every object whose lifetime has ended. -/
@@ -405,6 +483,48 @@ def onTab (w : World) (i : Nat) (f : Tab → Option Nat → Out) : StepOut :=
   | none => skip w
   | some t => let o := f t w.cd; ⟨{ (w.put i (some o.tab)) with cd := o.cd }, o.res, o.evs, true⟩
 
+/-- one of the three objects of a stacking constructor that failed part way: events and what is live -/
+abbrev Part := List Ev × List Nat
+
+/-- a stacking constructor that threw after `parts` (in construction order) had obtained memory -/
+def stackFail (c : Cfg) (w : World) (cd : Option Nat) (parts : List Part) : StepOut :=
+  let allocs := parts.flatMap (·.1)
+  if c.stackGuard then
+    -- unwinding releases the new table's arrays first, then the paddings
+    ⟨{ w with cd := cd, retired := parts.map (fun p => ledgerOf (p.1 ++ p.2.map .d)) ++ w.retired }, .threw,
+      allocs ++ parts.reverse.flatMap (fun p => p.2.map Ev.d), true⟩
+  else
+    -- nobody ever releases them: a constructor that throws has no destructor run, the paddings are raw `new`
+    ⟨{ w with cd := cd, retired := parts.map (fun p => ledgerOf p.1) ++ w.retired }, .threw, allocs, true⟩
+
+def stack (c : Cfg) (w : World) (i : Nat) (ts : List Tab) (order : Nat) : StepOut :=
+  if !stackValid ts then
+    if c.stackCheck then ⟨{ w with retired := ([], 0) :: w.retired }, .threw, [], true⟩ else ⟨w, .crash, [], true⟩
+  else
+    let dims := (ts.headD Tab.empty).dims
+    let r1 := runSteps w.cd ((padBlocks dims).map .a) []
+    if !r1.2.2.2 then stackFail c w r1.2.2.1 [(r1.1, r1.2.1)]
+    else
+      let r2 := runSteps r1.2.2.1 ((padBlocks dims).map .a) []
+      if !r2.2.2.2 then stackFail c w r2.2.2.1 [(r1.1, r1.2.1), (r2.1, r2.2.1)]
+      else
+        let r3 := runSteps r2.2.2.1 ((stackMainBlocks c dims ts.length order).map .a) []
+        if !r3.2.2.2 then stackFail c w r3.2.2.1 [(r1.1, r1.2.1), (r2.1, r2.2.1), (r3.1, r3.2.1)]
+        else
+          let t := (stackTarget c dims ts.length order).apply r3.1
+          let p1 := padTab dims (ledgerOf r1.1)
+          let p2 := padTab dims (ledgerOf r2.1)
+          if c.stackDelete then
+            let d1 := destroy p1
+            let d2 := destroy p2
+            let ret := (d1.1.ledger, d1.1.bad) :: (d2.1.ledger, d2.1.bad) :: w.retired
+            ⟨{ (w.put i (some t)) with cd := r3.2.2.1, retired := ret }, .ok,
+              r1.1 ++ r2.1 ++ r3.1 ++ d1.2 ++ d2.2, true⟩
+          else
+            -- the paddings are abandoned with everything they own
+            ⟨{ (w.put i (some t)) with cd := (r3.2.2.1), retired := (p1.ledger, p1.bad) :: (p2.ledger, p2.bad) :: w.retired }, .ok,
+              r1.1 ++ r2.1 ++ r3.1, true⟩
+
 def step (c : Cfg) (w : World) : Op → StepOut
   | .construct i => match w.get i with
     | some _ => skip w
@@ -423,7 +543,7 @@ def step (c : Cfg) (w : World) : Op → StepOut
   | .getKey i id => onTab w i fun t cd => getKey t cd id
   | .convolve i dim nk => onTab w i fun t cd => convolve c t cd dim nk
   | .permute i p => onTab w i fun t cd => permute c t cd p
-  | .writeFits i => onTab w i fun t cd => writeFits t cd
+  | .writeFits i ioOk => onTab w i fun t cd => writeFits t cd ioOk
   | .moveConstruct i j => match w.get i, w.get j with
     | none, some s => ⟨(w.put i (some s)).put j (some Tab.empty), .ok, [], true⟩
     | _, _ => skip w
@@ -447,6 +567,9 @@ def step (c : Cfg) (w : World) : Op → StepOut
     | some t =>
       let d := destroy t
       ⟨{ (w.put i none) with retired := (d.1.ledger, d.1.bad) :: w.retired }, .ok, d.2, true⟩
+  | .stack i srcs order => match w.get i, srcs.mapM w.get with
+    | none, some ts => stack c w i ts order
+    | _, _ => skip w
 
 def run (c : Cfg) (w : World) (ops : List Op) : World := ops.foldl (fun w op => (step c w op).w) w
 
@@ -459,12 +582,17 @@ def World.init (cd : Option Nat) : World := { cd := cd }
 /-- the single object an operation acts on (none for the two-object operations and constructors) -/
 def Op.target : Op → Option Nat
   | .read i _ | .fit i _ | .writeKey i _ | .removeKey i _ | .getKey i _
-  | .convolve i _ _ | .permute i _ | .writeFits i => some i
+  | .convolve i _ _ | .permute i _ | .writeFits i _ => some i
   | _ => none
 
 /-- executable form of the world invariant (decided witnesses, driver self-check) -/
 def World.okB (w : World) : Bool :=
   w.objs.all (fun o => match o with | none => true | some t => t.ownB && t.balancedB) &&
+  w.retired.all (fun r => r.1.isEmpty && r.2 == 0)
+
+/-- the same without the clause about `extents` (the invariant `Cfg.head` keeps) -/
+def World.okXB (w : World) : Bool :=
+  w.objs.all (fun o => match o with | none => true | some t => t.ownXB && t.balancedB) &&
   w.retired.all (fun r => r.1.isEmpty && r.2 == 0)
 
 end PsV.Lifecycle
